@@ -45,6 +45,7 @@ KINDS = {
     "a": {"ack": "async", "gates": ["ack"]},  # short task, ack completes later
     "r": {"outcome": "raise"},
     "m": {"kind": "malformed"},
+    "f": {"ack": "future", "gates": ["ack"]},  # ack callable returns a Task (not a coroutine) that completes later
     "h": {},  # short task whose post_execute hook raises: its callback task ends with an exception
 }
 
@@ -74,6 +75,12 @@ class C05World(RecvWorld):
                         f"listen() returned at t={now/1e6:.3f} while messages {unfinished} were still in processing "
                         f"(W={self.W}, shutdown began {None if self.t_sd is None else self.t_sd/1e6})",
                     )
+            inflight = self.acks_in_flight()
+            if inflight and not (self.W is not None and self.t_sd is not None and now - self.t_sd >= round(self.W * 1e6)):
+                self.flag(
+                    "C05:returned-with-ack-in-flight",
+                    f"listen() returned at t={now/1e6:.3f} while the acknowledgement of messages {inflight} had been started but not completed",
+                )
             if self.t_sd is None:
                 self.flag("C05:returned-without-shutdown", "listen() returned although no shutdown condition occurred")
             else:
@@ -180,12 +187,12 @@ def scenarios(tier: str) -> List[Dict[str, Any]]:
     out: List[Dict[str, Any]] = []
     if tier == "quick":
         As, Ps, Ns, Ws = [None, 1, 2], [0, 1], [None, 1, 2], [None, 0.1, 0.3, 0.5]
-        words = ["s", "n", "a", "ss", "sn", "ns", "nn", "as", "sa", "rs", "ms", "hn", "nh", "hs", "ssn", "nss", "sns", "nns", "sss"]
+        words = ["s", "n", "a", "ss", "sn", "ns", "nn", "as", "sa", "rs", "ms", "hn", "nh", "hs", "f", "fs", "sf", "ssss", "ssn", "nss", "sns", "nns", "sss"]
         l1_words, l1_cfg = ["s", "n", "sn", "ns"], [(a, p, n, w) for a in (1, 2) for p in (0,) for n in (None, 1) for w in (None, 0.3)]
         l2_words, l2_cfg = [], []
     else:
         As, Ps, Ns, Ws = [None, 1, 2, 3], [0, 1, 2], [None, 1, 2, 3], [None, 0.1, 0.3, 0.5]
-        words = ["".join(w) for k in (1, 2, 3) for w in itertools.product("sna", repeat=k)] + ["rs", "ms", "sm", "hn", "nh", "hs", "sh", "hsn", "nhs", "ssss", "snsn", "nnss", "ssnn", "asna"]
+        words = ["".join(w) for k in (1, 2, 3) for w in itertools.product("sna", repeat=k)] + ["rs", "ms", "sm", "hn", "nh", "hs", "sh", "hsn", "nhs", "f", "fs", "sf", "fn", "ffs", "ssss", "snsn", "nnss", "ssnn", "asna"]
         l1_words = ["s", "n", "a", "sn", "ns", "ss", "nn", "sa", "ssn", "nss"]
         l1_cfg = [(a, p, n, w) for a in (None, 1, 2) for p in (0, 1) for n in (None, 1, 2) for w in (None, 0.1, 0.3)]
         l2_words, l2_cfg = ["s", "n", "sn", "ns"], [(a, p, n, w) for a in (1, 2) for p in (0, 1) for n in (None, 1) for w in (None, 0.3)]
